@@ -34,6 +34,10 @@ func (ld *Loaded) staticScans(id string) []*FuncResult {
 				has = true
 			}
 		}
+		if has && fd.Kind == "promoted" {
+			out = append(out, ld.promotedScan(fd))
+			continue
+		}
 		if !has || fd.Kind != "immutable" {
 			continue
 		}
@@ -90,4 +94,41 @@ func (ld *Loaded) staticScans(id string) []*FuncResult {
 		out = append(out, &FuncResult{Key: "static:" + o.Name, Obls: []*Obligation{o}})
 	}
 	return out
+}
+
+// promotedScan: the listed methods of *T are promoted from the named embedded field
+// (as go/types resolves them), i.e. the type does not define or shadow them.
+func (ld *Loaded) promotedScan(fd *FieldDecl) *FuncResult {
+	o := &Obligation{Name: shortStem(fd.Pkg, fd.Type) + "#frame:promoted." + fd.Field, Kind: "frame", Static: true, Props: fd.Props}
+	var tp *types.Package
+	for _, p := range ld.prog.AllPackages() {
+		if p.Pkg.Path() == fd.Pkg {
+			tp = p.Pkg
+		}
+	}
+	var bad []string
+	if tp == nil || tp.Scope().Lookup(fd.Type) == nil {
+		bad = append(bad, "type "+fd.Type+" not found")
+	} else {
+		t := types.NewPointer(tp.Scope().Lookup(fd.Type).Type())
+		ms := types.NewMethodSet(t)
+		stt, _ := tp.Scope().Lookup(fd.Type).Type().Underlying().(*types.Struct)
+		for _, m := range strings.Fields(fd.Arg) {
+			sel := ms.Lookup(tp, m)
+			if sel == nil {
+				bad = append(bad, m+": no such method")
+				continue
+			}
+			idx := sel.Index()
+			if len(idx) < 2 || stt == nil || stt.Field(idx[0]).Name() != fd.Field {
+				bad = append(bad, m+": not promoted from "+fd.Field)
+			}
+		}
+	}
+	o.StaticOK = len(bad) == 0
+	o.Detail = fmt.Sprintf("methods %s of *%s are promoted from the embedded field %s", fd.Arg, fd.Type, fd.Field)
+	if len(bad) > 0 {
+		o.Detail += ": FAILS: " + strings.Join(bad, "; ")
+	}
+	return &FuncResult{Key: "static:" + o.Name, Obls: []*Obligation{o}}
 }
